@@ -23,6 +23,14 @@ What is proved (Props/C16.lean, Lemmas/OStream.lean; all for ALL objects, ALL bu
                           `save` takes the same path (fault / refusal / write phase with the same arguments);
                           `saveWrite_eq_ops`: the write phase is a fixed list of stream operations (`saveOps`) and
                           its result is `!fail` of the final stream.
+  * buffered stream (`std::ofstream` over `std::filebuf`, Model/BStream.lean, Props/C16Buffered.lean): a put area of
+    any size in front of the budgeted device reports a rejected write late (next write-through, seek or flush).
+    `buffered_sim`: for every operation list, device state, put-area size and write-through threshold the buffered
+    run followed by `flush()` leaves the device exactly as the unbuffered run leaves the stream (bytes, position,
+    failure flag); `save_fail_buffered` / `save_ok_buffered`: the write-phase operations of `save` on such a stream
+    followed by the final `stream.flush()` end failed for every k < L and every buffer size, and end good with the
+    complete file on the device when the device takes everything; `buffered_delay_witness`: before that flush the
+    buffered stream can still be good although the device is full (why `save` must flush before it tests `fail()`).
 Proof idea of `save_fail`: a budgeted stream simulates the unlimited one until its first failure (`Sim`,
 `sim_runStreamOps`), and it never holds more than k bytes; so a run that ends without failure ends with the unlimited
 content, which has more than k bytes — contradiction.
@@ -68,7 +76,15 @@ THEOREMS = ["ElfioVerif.C16.fail_sticky", "ElfioVerif.C16.write_fail_sticky", "E
             "ElfioVerif.C16.save_unlimited_true", "ElfioVerif.C16.save_null_header",
             "ElfioVerif.C16.save_budget_witness", "ElfioVerif.C16.saveWrite_eq_ops", "ElfioVerif.C16.save_pair",
             "ElfioVerif.C16.save_fail_from", "ElfioVerif.C16.save_ok_from", "ElfioVerif.C16.saveOld_same_effects",
-            "ElfioVerif.runStreamOps_fail_of_short", "ElfioVerif.runStreamOps_withBudget"]
+            "ElfioVerif.runStreamOps_fail_of_short", "ElfioVerif.runStreamOps_withBudget",
+            # buffered stream (std::ofstream / std::filebuf), Props/C16Buffered.lean + Model/BStream.lean
+            "ElfioVerif.OStream.write_append", "ElfioVerif.settled_runStreamOpsB",
+            "ElfioVerif.C16.buffered_sim", "ElfioVerif.C16.buffered_sim_fail", "ElfioVerif.C16.buffered_fail_early",
+            "ElfioVerif.C16.fail_sticky_buffered",
+            "ElfioVerif.C16.ops_fail_buffered", "ElfioVerif.C16.ops_ok_buffered",
+            "ElfioVerif.C16.save_fail_buffered", "ElfioVerif.C16.save_fail_buffered_all",
+            "ElfioVerif.C16.save_ok_buffered", "ElfioVerif.C16.buffered_delay_witness"]
+EXTRA_IMPORTS = ["ElfioVerif.Props.C16Buffered"]
 SITES = ["save_", "lsws", "lst_", "lseg", "wsd"]
 RULE = ("objects: random writer programs (0-5 extra sections of type PROGBITS/NOBITS/STRTAB/NOTE/NULL, data 0-48 bytes, "
         "alignments 0..64, 0-2 segments with member runs, optional explicit addresses) in ELF32/ELF64 x LSB/MSB, "
